@@ -468,8 +468,8 @@ func mk(r *hx.Rand, sz ...int) codec.Frame {
 	return f
 }
 
-// staleWitness: frame A fragmented with its last packet lost, frame B in a single packet, frame C
-// fragmented: B and C arrive intact, C must be returned intact (C07).
+// staleWitness (regression case, repaired by commit ccfdafa): frame A fragmented with its last packet
+// lost, frame B in a single packet, frame C fragmented: B and C arrive intact, C must be returned intact (C07).
 func staleWitness(ctx *hx.Ctx, max int) {
 	r := ctx.Rng
 	frames := []codec.Frame{mk(r, 2*max), mk(r, 5), mk(r, 2*max+3)}
@@ -593,7 +593,8 @@ func main() {
 	}
 	switch ctx.Prop {
 	case "C03":
-		// the two fixed witnesses of finding F1 (DESIGN.md section 5), reproduced on every run
+		// regression cases: the two witnesses of finding F1 (DESIGN.md section 5, repaired by commit
+		// aec245d): must round-trip; the class av1-empty-fragment-yz reports the defect if it returns
 		roundTrip(ctx, 1450, 0, []codec.Frame{mk(ctx.Rng, 1446, 10, 10)}, "witness")
 		roundTrip(ctx, 5, 65535, []codec.Frame{mk(ctx.Rng, 3, 1)}, "witness")
 	case "C07":
@@ -610,7 +611,8 @@ func main() {
 	Format.Run(ctx)
 	if ctx.Prop == "C08" {
 		n := ctx.Budget(3000, 30000)
-		// endless start fragments (Z=0, Y=1, W=1): nothing ever resets Decoder.fragments
+		// regression case (repaired by commit ccfdafa): endless start fragments (Z=0, Y=1, W=1) used to
+		// be appended to Decoder.fragments forever; each one must now replace the pending ones
 		Format.EndlessFragments(ctx, "endless-start-fragments", n, func(i int, seq uint16) *rtp.Packet {
 			return &rtp.Packet{Header: rtp.Header{Version: 2, SequenceNumber: seq}, Payload: append([]byte{0x50}, make([]byte, 1400)...)}
 		}, capSize+2000, capSize+2000)
